@@ -12,28 +12,28 @@ theorem step_noSR (cfg : Cfg) (s t : St) (f : Bool) (h : Step cfg f s t) (inv : 
   cases h with
   | startPut _ i hi =>
     have l1 := le_tot srAllW _ _ _ hi
-    (try simp only [St.setDone, St.setBg]) <;> (repeat' split) <;> simp_all [tot_set_eq _ _ _ _ _ hi, tot_ackWs_srall, srAllW, St.bg, onOk, onErr, selNext, afterSetErr] <;> (try omega)
+    (try simp only [St.setDone, St.setBg, ↓reduceIte, Bool.false_eq_true, Bool.and_false, Bool.and_true, Bool.false_and, Bool.true_and]) <;> (repeat' split) <;> simp_all [tot_set_eq _ _ _ _ _ hi, tot_ackWs_srall, srAllW, St.bg, onOk, onErr, selNext, afterSetErr] <;> (try omega)
   | startWrite _ i hi =>
     have l1 := le_tot srAllW _ _ _ hi
-    (try simp only [St.setDone, St.setBg]) <;> (repeat' split) <;> simp_all [tot_set_eq _ _ _ _ _ hi, tot_ackWs_srall, srAllW, St.bg, onOk, onErr, selNext, afterSetErr] <;> (try omega)
+    (try simp only [St.setDone, St.setBg, ↓reduceIte, Bool.false_eq_true, Bool.and_false, Bool.and_true, Bool.false_and, Bool.true_and]) <;> (repeat' split) <;> simp_all [tot_set_eq _ _ _ _ _ hi, tot_ackWs_srall, srAllW, St.bg, onOk, onErr, selNext, afterSetErr] <;> (try omega)
   | startOtx _ i hi =>
     have l1 := le_tot srAllW _ _ _ hi
-    (try simp only [St.setDone, St.setBg]) <;> (repeat' split) <;> simp_all [tot_set_eq _ _ _ _ _ hi, tot_ackWs_srall, srAllW, St.bg, onOk, onErr, selNext, afterSetErr] <;> (try omega)
+    (try simp only [St.setDone, St.setBg, ↓reduceIte, Bool.false_eq_true, Bool.and_false, Bool.and_true, Bool.false_and, Bool.true_and]) <;> (repeat' split) <;> simp_all [tot_set_eq _ _ _ _ _ hi, tot_ackWs_srall, srAllW, St.bg, onOk, onErr, selNext, afterSetErr] <;> (try omega)
   | startCommit _ i hi hu =>
     have l1 := le_tot srAllW _ _ _ hi
-    (try simp only [St.setDone, St.setBg]) <;> (repeat' split) <;> simp_all [tot_set_eq _ _ _ _ _ hi, tot_ackWs_srall, srAllW, St.bg, onOk, onErr, selNext, afterSetErr] <;> (try omega)
+    (try simp only [St.setDone, St.setBg, ↓reduceIte, Bool.false_eq_true, Bool.and_false, Bool.and_true, Bool.false_and, Bool.true_and]) <;> (repeat' split) <;> simp_all [tot_set_eq _ _ _ _ _ hi, tot_ackWs_srall, srAllW, St.bg, onOk, onErr, selNext, afterSetErr] <;> (try omega)
   | startDiscard _ i hi hu =>
     have l1 := le_tot srAllW _ _ _ hi
-    (try simp only [St.setDone, St.setBg]) <;> (repeat' split) <;> simp_all [tot_set_eq _ _ _ _ _ hi, tot_ackWs_srall, srAllW, St.bg, onOk, onErr, selNext, afterSetErr] <;> (try omega)
+    (try simp only [St.setDone, St.setBg, ↓reduceIte, Bool.false_eq_true, Bool.and_false, Bool.and_true, Bool.false_and, Bool.true_and]) <;> (repeat' split) <;> simp_all [tot_set_eq _ _ _ _ _ hi, tot_ackWs_srall, srAllW, St.bg, onOk, onErr, selNext, afterSetErr] <;> (try omega)
   | startCR _ i hi =>
     have l1 := le_tot srAllW _ _ _ hi
-    (try simp only [St.setDone, St.setBg]) <;> (repeat' split) <;> simp_all [tot_set_eq _ _ _ _ _ hi, tot_ackWs_srall, srAllW, St.bg, onOk, onErr, selNext, afterSetErr] <;> (try omega)
+    (try simp only [St.setDone, St.setBg, ↓reduceIte, Bool.false_eq_true, Bool.and_false, Bool.and_true, Bool.false_and, Bool.true_and]) <;> (repeat' split) <;> simp_all [tot_set_eq _ _ _ _ _ hi, tot_ackWs_srall, srAllW, St.bg, onOk, onErr, selNext, afterSetErr] <;> (try omega)
   | startSR _ i hi ha =>
     have l1 := le_tot srAllW _ _ _ hi
-    (try simp only [St.setDone, St.setBg]) <;> (repeat' split) <;> simp_all [tot_set_eq _ _ _ _ _ hi, tot_ackWs_srall, srAllW, St.bg, onOk, onErr, selNext, afterSetErr] <;> (try omega)
+    (try simp only [St.setDone, St.setBg, ↓reduceIte, Bool.false_eq_true, Bool.and_false, Bool.and_true, Bool.false_and, Bool.true_and]) <;> (repeat' split) <;> simp_all [tot_set_eq _ _ _ _ _ hi, tot_ackWs_srall, srAllW, St.bg, onOk, onErr, selNext, afterSetErr] <;> (try omega)
   | startClose _ i hi =>
     have l1 := le_tot srAllW _ _ _ hi
-    (try simp only [St.setDone, St.setBg]) <;> (repeat' split) <;> simp_all [tot_set_eq _ _ _ _ _ hi, tot_ackWs_srall, srAllW, St.bg, onOk, onErr, selNext, afterSetErr] <;> (try omega)
+    (try simp only [St.setDone, St.setBg, ↓reduceIte, Bool.false_eq_true, Bool.and_false, Bool.and_true, Bool.false_and, Bool.true_and]) <;> (repeat' split) <;> simp_all [tot_set_eq _ _ _ _ _ hi, tot_ackWs_srall, srAllW, St.bg, onOk, onErr, selNext, afterSetErr] <;> (try omega)
   | selTok _ i p q hi hq ht =>
     have l1 := le_tot srAllW _ _ _ hi
     cases p <;> simp only [selNext] at hq <;> (try contradiction) <;> cases hq <;> simp_all [tot_set_eq _ _ _ _ _ hi, tot_ackWs_srall, srAllW, St.bg, onOk, onErr, selNext, afterSetErr] <;> (try omega)
@@ -45,183 +45,196 @@ theorem step_noSR (cfg : Cfg) (s t : St) (f : Bool) (h : Step cfg f s t) (inv : 
     cases p <;> simp only [selNext] at hq <;> (try contradiction) <;> cases hq <;> simp_all [tot_set_eq _ _ _ _ _ hi, tot_ackWs_srall, srAllW, St.bg, onOk, onErr, selNext, afterSetErr] <;> (try omega)
   | putNoWait _ i hi =>
     have l1 := le_tot srAllW _ _ _ hi
-    (try simp only [St.setDone, St.setBg]) <;> (repeat' split) <;> simp_all [tot_set_eq _ _ _ _ _ hi, tot_ackWs_srall, srAllW, St.bg, onOk, onErr, selNext, afterSetErr] <;> (try omega)
+    (try simp only [St.setDone, St.setBg, ↓reduceIte, Bool.false_eq_true, Bool.and_false, Bool.and_true, Bool.false_and, Bool.true_and]) <;> (repeat' split) <;> simp_all [tot_set_eq _ _ _ _ _ hi, tot_ackWs_srall, srAllW, St.bg, onOk, onErr, selNext, afterSetErr] <;> (try omega)
   | putWait _ i b hi =>
     have l1 := le_tot srAllW _ _ _ hi
-    cases b <;> (try simp only [St.setDone, St.setBg]) <;> (repeat' split) <;> simp_all [tot_set_eq _ _ _ _ _ hi, tot_ackWs_srall, srAllW, St.bg, onOk, onErr, selNext, afterSetErr] <;> (try omega)
+    cases b <;> (try simp only [St.setDone, St.setBg, ↓reduceIte, Bool.false_eq_true, Bool.and_false, Bool.and_true, Bool.false_and, Bool.true_and]) <;> (repeat' split) <;> simp_all [tot_set_eq _ _ _ _ _ hi, tot_ackWs_srall, srAllW, St.bg, onOk, onErr, selNext, afterSetErr] <;> (try omega)
   | putJournalOk _ i hi =>
     have l1 := le_tot srAllW _ _ _ hi
-    (try simp only [St.setDone, St.setBg]) <;> (repeat' split) <;> simp_all [tot_set_eq _ _ _ _ _ hi, tot_ackWs_srall, srAllW, St.bg, onOk, onErr, selNext, afterSetErr] <;> (try omega)
+    (try simp only [St.setDone, St.setBg, ↓reduceIte, Bool.false_eq_true, Bool.and_false, Bool.and_true, Bool.false_and, Bool.true_and]) <;> (repeat' split) <;> simp_all [tot_set_eq _ _ _ _ _ hi, tot_ackWs_srall, srAllW, St.bg, onOk, onErr, selNext, afterSetErr] <;> (try omega)
   | putJournalFail _ i hi =>
     have l1 := le_tot srAllW _ _ _ hi
-    (try simp only [St.setDone, St.setBg]) <;> (repeat' split) <;> simp_all [tot_set_eq _ _ _ _ _ hi, tot_ackWs_srall, srAllW, St.bg, onOk, onErr, selNext, afterSetErr] <;> (try omega)
+    (try simp only [St.setDone, St.setBg, ↓reduceIte, Bool.false_eq_true, Bool.and_false, Bool.and_true, Bool.false_and, Bool.true_and]) <;> (repeat' split) <;> simp_all [tot_set_eq _ _ _ _ _ hi, tot_ackWs_srall, srAllW, St.bg, onOk, onErr, selNext, afterSetErr] <;> (try omega)
   | putUnlock _ i r hi =>
     have l1 := le_tot srAllW _ _ _ hi
-    cases r <;> (try simp only [St.setDone, St.setBg]) <;> (repeat' split) <;> simp_all [tot_set_eq _ _ _ _ _ hi, tot_ackWs_srall, srAllW, St.bg, onOk, onErr, selNext, afterSetErr] <;> (try omega)
-  | cwSendGo _ i b site lg hi hb =>
+    cases r <;> (try simp only [St.setDone, St.setBg, ↓reduceIte, Bool.false_eq_true, Bool.and_false, Bool.and_true, Bool.false_and, Bool.true_and]) <;> (repeat' split) <;> simp_all [tot_set_eq _ _ _ _ _ hi, tot_ackWs_srall, srAllW, St.bg, onOk, onErr, selNext, afterSetErr] <;> (try omega)
+  | cwSendGo _ i b site lg hi hb hro =>
     have l1 := le_tot srAllW _ _ _ hi
-    cases site <;> cases b <;> cases lg <;> (try simp only [St.setDone, St.setBg]) <;> (repeat' split) <;> simp_all [tot_set_eq _ _ _ _ _ hi, tot_ackWs_srall, srAllW, St.bg, onOk, onErr, selNext, afterSetErr] <;> (try omega)
+    cases site <;> cases b <;> cases lg <;> (try simp only [St.setDone, St.setBg, ↓reduceIte, Bool.false_eq_true, Bool.and_false, Bool.and_true, Bool.false_and, Bool.true_and]) <;> (repeat' split) <;> simp_all [tot_set_eq _ _ _ _ _ hi, tot_ackWs_srall, srAllW, St.bg, onOk, onErr, selNext, afterSetErr] <;> (try omega)
+  | cwSendRO _ i site lg hi hb hp hro =>
+    have l1 := le_tot srAllW _ _ _ hi
+    cases site <;> cases lg <;> (try simp only [St.setDone, St.setBg, ↓reduceIte, Bool.false_eq_true, Bool.and_false, Bool.and_true, Bool.false_and, Bool.true_and]) <;> (repeat' split) <;> simp_all [tot_set_eq _ _ _ _ _ hi, tot_ackWs_srall, srAllW, St.bg, onOk, onErr, selNext, afterSetErr] <;> (try omega)
   | cwSendErr _ i b site lg hi he =>
     have l1 := le_tot srAllW _ _ _ hi
-    cases site <;> cases b <;> cases lg <;> (try simp only [St.setDone, St.setBg]) <;> (repeat' split) <;> simp_all [tot_set_eq _ _ _ _ _ hi, tot_ackWs_srall, srAllW, St.bg, onOk, onErr, selNext, afterSetErr] <;> (try omega)
+    cases site <;> cases b <;> cases lg <;> (try simp only [St.setDone, St.setBg, ↓reduceIte, Bool.false_eq_true, Bool.and_false, Bool.and_true, Bool.false_and, Bool.true_and]) <;> (repeat' split) <;> simp_all [tot_set_eq _ _ _ _ _ hi, tot_ackWs_srall, srAllW, St.bg, onOk, onErr, selNext, afterSetErr] <;> (try omega)
   | cwAckErr _ i b site lg hi he =>
     have l1 := le_tot srAllW _ _ _ hi
-    cases site <;> cases b <;> cases lg <;> (try simp only [St.setDone, St.setBg]) <;> (repeat' split) <;> simp_all [tot_set_eq _ _ _ _ _ hi, tot_ackWs_srall, srAllW, St.bg, onOk, onErr, selNext, afterSetErr] <;> (try omega)
+    cases site <;> cases b <;> cases lg <;> (try simp only [St.setDone, St.setBg, ↓reduceIte, Bool.false_eq_true, Bool.and_false, Bool.and_true, Bool.false_and, Bool.true_and]) <;> (repeat' split) <;> simp_all [tot_set_eq _ _ _ _ _ hi, tot_ackWs_srall, srAllW, St.bg, onOk, onErr, selNext, afterSetErr] <;> (try omega)
   | otxRotate _ i lg hi =>
     have l1 := le_tot srAllW _ _ _ hi
-    cases lg <;> (try simp only [St.setDone, St.setBg]) <;> (repeat' split) <;> simp_all [tot_set_eq _ _ _ _ _ hi, tot_ackWs_srall, srAllW, St.bg, onOk, onErr, selNext, afterSetErr] <;> (try omega)
+    cases lg <;> (try simp only [St.setDone, St.setBg, ↓reduceIte, Bool.false_eq_true, Bool.and_false, Bool.and_true, Bool.false_and, Bool.true_and]) <;> (repeat' split) <;> simp_all [tot_set_eq _ _ _ _ _ hi, tot_ackWs_srall, srAllW, St.bg, onOk, onErr, selNext, afterSetErr] <;> (try omega)
   | otxNoRotate _ i lg hi =>
     have l1 := le_tot srAllW _ _ _ hi
-    cases lg <;> (try simp only [St.setDone, St.setBg]) <;> (repeat' split) <;> simp_all [tot_set_eq _ _ _ _ _ hi, tot_ackWs_srall, srAllW, St.bg, onOk, onErr, selNext, afterSetErr] <;> (try omega)
+    cases lg <;> (try simp only [St.setDone, St.setBg, ↓reduceIte, Bool.false_eq_true, Bool.and_false, Bool.and_true, Bool.false_and, Bool.true_and]) <;> (repeat' split) <;> simp_all [tot_set_eq _ _ _ _ _ hi, tot_ackWs_srall, srAllW, St.bg, onOk, onErr, selNext, afterSetErr] <;> (try omega)
   | otxNewMemOk _ i lg hi =>
     have l1 := le_tot srAllW _ _ _ hi
-    cases lg <;> (try simp only [St.setDone, St.setBg]) <;> (repeat' split) <;> simp_all [tot_set_eq _ _ _ _ _ hi, tot_ackWs_srall, srAllW, St.bg, onOk, onErr, selNext, afterSetErr] <;> (try omega)
+    cases lg <;> (try simp only [St.setDone, St.setBg, ↓reduceIte, Bool.false_eq_true, Bool.and_false, Bool.and_true, Bool.false_and, Bool.true_and]) <;> (repeat' split) <;> simp_all [tot_set_eq _ _ _ _ _ hi, tot_ackWs_srall, srAllW, St.bg, onOk, onErr, selNext, afterSetErr] <;> (try omega)
   | otxNewMemFail _ i lg hi =>
     have l1 := le_tot srAllW _ _ _ hi
-    cases lg <;> (try simp only [St.setDone, St.setBg]) <;> (repeat' split) <;> simp_all [tot_set_eq _ _ _ _ _ hi, tot_ackWs_srall, srAllW, St.bg, onOk, onErr, selNext, afterSetErr] <;> (try omega)
+    cases lg <;> (try simp only [St.setDone, St.setBg, ↓reduceIte, Bool.false_eq_true, Bool.and_false, Bool.and_true, Bool.false_and, Bool.true_and]) <;> (repeat' split) <;> simp_all [tot_set_eq _ _ _ _ _ hi, tot_ackWs_srall, srAllW, St.bg, onOk, onErr, selNext, afterSetErr] <;> (try omega)
   | otxNoWaitComp _ i lg hi =>
     have l1 := le_tot srAllW _ _ _ hi
-    cases lg <;> (try simp only [St.setDone, St.setBg]) <;> (repeat' split) <;> simp_all [tot_set_eq _ _ _ _ _ hi, tot_ackWs_srall, srAllW, St.bg, onOk, onErr, selNext, afterSetErr] <;> (try omega)
+    cases lg <;> (try simp only [St.setDone, St.setBg, ↓reduceIte, Bool.false_eq_true, Bool.and_false, Bool.and_true, Bool.false_and, Bool.true_and]) <;> (repeat' split) <;> simp_all [tot_set_eq _ _ _ _ _ hi, tot_ackWs_srall, srAllW, St.bg, onOk, onErr, selNext, afterSetErr] <;> (try omega)
   | otxWaitComp _ i lg hi =>
     have l1 := le_tot srAllW _ _ _ hi
-    cases lg <;> (try simp only [St.setDone, St.setBg]) <;> (repeat' split) <;> simp_all [tot_set_eq _ _ _ _ _ hi, tot_ackWs_srall, srAllW, St.bg, onOk, onErr, selNext, afterSetErr] <;> (try omega)
+    cases lg <;> (try simp only [St.setDone, St.setBg, ↓reduceIte, Bool.false_eq_true, Bool.and_false, Bool.and_true, Bool.false_and, Bool.true_and]) <;> (repeat' split) <;> simp_all [tot_set_eq _ _ _ _ _ hi, tot_ackWs_srall, srAllW, St.bg, onOk, onErr, selNext, afterSetErr] <;> (try omega)
   | otxFail _ i lg hi =>
     have l1 := le_tot srAllW _ _ _ hi
-    cases lg <;> (try simp only [St.setDone, St.setBg]) <;> (repeat' split) <;> simp_all [tot_set_eq _ _ _ _ _ hi, tot_ackWs_srall, srAllW, St.bg, onOk, onErr, selNext, afterSetErr] <;> (try omega)
+    cases lg <;> (try simp only [St.setDone, St.setBg, ↓reduceIte, Bool.false_eq_true, Bool.and_false, Bool.and_true, Bool.false_and, Bool.true_and]) <;> (repeat' split) <;> simp_all [tot_set_eq _ _ _ _ _ hi, tot_ackWs_srall, srAllW, St.bg, onOk, onErr, selNext, afterSetErr] <;> (try omega)
   | otxRel _ i lg hi =>
     have l1 := le_tot srAllW _ _ _ hi
-    cases lg <;> (try simp only [St.setDone, St.setBg]) <;> (repeat' split) <;> simp_all [tot_set_eq _ _ _ _ _ hi, tot_ackWs_srall, srAllW, St.bg, onOk, onErr, selNext, afterSetErr] <;> (try omega)
+    cases lg <;> (try simp only [St.setDone, St.setBg, ↓reduceIte, Bool.false_eq_true, Bool.and_false, Bool.and_true, Bool.false_and, Bool.true_and]) <;> (repeat' split) <;> simp_all [tot_set_eq _ _ _ _ _ hi, tot_ackWs_srall, srAllW, St.bg, onOk, onErr, selNext, afterSetErr] <;> (try omega)
   | otxDone _ i lg hi =>
     have l1 := le_tot srAllW _ _ _ hi
-    cases lg <;> (try simp only [St.setDone, St.setBg]) <;> (repeat' split) <;> simp_all [tot_set_eq _ _ _ _ _ hi, tot_ackWs_srall, srAllW, St.bg, onOk, onErr, selNext, afterSetErr] <;> (try omega)
+    cases lg <;> (try simp only [St.setDone, St.setBg, ↓reduceIte, Bool.false_eq_true, Bool.and_false, Bool.and_true, Bool.false_and, Bool.true_and]) <;> (repeat' split) <;> simp_all [tot_set_eq _ _ _ _ _ hi, tot_ackWs_srall, srAllW, St.bg, onOk, onErr, selNext, afterSetErr] <;> (try omega)
   | lgWriteOk _ i hi =>
     have l1 := le_tot srAllW _ _ _ hi
-    (try simp only [St.setDone, St.setBg]) <;> (repeat' split) <;> simp_all [tot_set_eq _ _ _ _ _ hi, tot_ackWs_srall, srAllW, St.bg, onOk, onErr, selNext, afterSetErr] <;> (try omega)
+    (try simp only [St.setDone, St.setBg, ↓reduceIte, Bool.false_eq_true, Bool.and_false, Bool.and_true, Bool.false_and, Bool.true_and]) <;> (repeat' split) <;> simp_all [tot_set_eq _ _ _ _ _ hi, tot_ackWs_srall, srAllW, St.bg, onOk, onErr, selNext, afterSetErr] <;> (try omega)
   | lgWriteFail _ i hi =>
     have l1 := le_tot srAllW _ _ _ hi
-    (try simp only [St.setDone, St.setBg]) <;> (repeat' split) <;> simp_all [tot_set_eq _ _ _ _ _ hi, tot_ackWs_srall, srAllW, St.bg, onOk, onErr, selNext, afterSetErr] <;> (try omega)
+    (try simp only [St.setDone, St.setBg, ↓reduceIte, Bool.false_eq_true, Bool.and_false, Bool.and_true, Bool.false_and, Bool.true_and]) <;> (repeat' split) <;> simp_all [tot_set_eq _ _ _ _ _ hi, tot_ackWs_srall, srAllW, St.bg, onOk, onErr, selNext, afterSetErr] <;> (try omega)
   | cmLockTr _ i lg hi hl =>
     have l1 := le_tot srAllW _ _ _ hi
-    cases lg <;> (try simp only [St.setDone, St.setBg]) <;> (repeat' split) <;> simp_all [tot_set_eq _ _ _ _ _ hi, tot_ackWs_srall, srAllW, St.bg, onOk, onErr, selNext, afterSetErr] <;> (try omega)
+    cases lg <;> (try simp only [St.setDone, St.setBg, ↓reduceIte, Bool.false_eq_true, Bool.and_false, Bool.and_true, Bool.false_and, Bool.true_and]) <;> (repeat' split) <;> simp_all [tot_set_eq _ _ _ _ _ hi, tot_ackWs_srall, srAllW, St.bg, onOk, onErr, selNext, afterSetErr] <;> (try omega)
   | cmFlushOk _ i lg hi =>
     have l1 := le_tot srAllW _ _ _ hi
-    cases lg <;> (try simp only [St.setDone, St.setBg]) <;> (repeat' split) <;> simp_all [tot_set_eq _ _ _ _ _ hi, tot_ackWs_srall, srAllW, St.bg, onOk, onErr, selNext, afterSetErr] <;> (try omega)
+    cases lg <;> (try simp only [St.setDone, St.setBg, ↓reduceIte, Bool.false_eq_true, Bool.and_false, Bool.and_true, Bool.false_and, Bool.true_and]) <;> (repeat' split) <;> simp_all [tot_set_eq _ _ _ _ _ hi, tot_ackWs_srall, srAllW, St.bg, onOk, onErr, selNext, afterSetErr] <;> (try omega)
   | cmFlushEmpty _ i lg hi =>
     have l1 := le_tot srAllW _ _ _ hi
-    cases lg <;> (try simp only [St.setDone, St.setBg]) <;> (repeat' split) <;> simp_all [tot_set_eq _ _ _ _ _ hi, tot_ackWs_srall, srAllW, St.bg, onOk, onErr, selNext, afterSetErr] <;> (try omega)
+    cases lg <;> (try simp only [St.setDone, St.setBg, ↓reduceIte, Bool.false_eq_true, Bool.and_false, Bool.and_true, Bool.false_and, Bool.true_and]) <;> (repeat' split) <;> simp_all [tot_set_eq _ _ _ _ _ hi, tot_ackWs_srall, srAllW, St.bg, onOk, onErr, selNext, afterSetErr] <;> (try omega)
   | cmFlushFail _ i lg hi =>
     have l1 := le_tot srAllW _ _ _ hi
-    cases lg <;> (try simp only [St.setDone, St.setBg]) <;> (repeat' split) <;> simp_all [tot_set_eq _ _ _ _ _ hi, tot_ackWs_srall, srAllW, St.bg, onOk, onErr, selNext, afterSetErr] <;> (try omega)
+    cases lg <;> (try simp only [St.setDone, St.setBg, ↓reduceIte, Bool.false_eq_true, Bool.and_false, Bool.and_true, Bool.false_and, Bool.true_and]) <;> (repeat' split) <;> simp_all [tot_set_eq _ _ _ _ _ hi, tot_ackWs_srall, srAllW, St.bg, onOk, onErr, selNext, afterSetErr] <;> (try omega)
   | cmLockClk _ i lg hi hl =>
     have l1 := le_tot srAllW _ _ _ hi
-    cases lg <;> (try simp only [St.setDone, St.setBg]) <;> (repeat' split) <;> simp_all [tot_set_eq _ _ _ _ _ hi, tot_ackWs_srall, srAllW, St.bg, onOk, onErr, selNext, afterSetErr] <;> (try omega)
+    cases lg <;> (try simp only [St.setDone, St.setBg, ↓reduceIte, Bool.false_eq_true, Bool.and_false, Bool.and_true, Bool.false_and, Bool.true_and]) <;> (repeat' split) <;> simp_all [tot_set_eq _ _ _ _ _ hi, tot_ackWs_srall, srAllW, St.bg, onOk, onErr, selNext, afterSetErr] <;> (try omega)
   | cmTryOk _ i k lg hi =>
     have l1 := le_tot srAllW _ _ _ hi
-    cases lg <;> (try simp only [St.setDone, St.setBg]) <;> (repeat' split) <;> simp_all [tot_set_eq _ _ _ _ _ hi, tot_ackWs_srall, srAllW, St.bg, onOk, onErr, selNext, afterSetErr] <;> (try omega)
+    cases lg <;> (try simp only [St.setDone, St.setBg, ↓reduceIte, Bool.false_eq_true, Bool.and_false, Bool.and_true, Bool.false_and, Bool.true_and]) <;> (repeat' split) <;> simp_all [tot_set_eq _ _ _ _ _ hi, tot_ackWs_srall, srAllW, St.bg, onOk, onErr, selNext, afterSetErr] <;> (try omega)
   | cmTryFail _ i k lg hi =>
     have l1 := le_tot srAllW _ _ _ hi
-    cases lg <;> (try simp only [St.setDone, St.setBg]) <;> (repeat' split) <;> simp_all [tot_set_eq _ _ _ _ _ hi, tot_ackWs_srall, srAllW, St.bg, onOk, onErr, selNext, afterSetErr] <;> (try omega)
+    cases lg <;> (try simp only [St.setDone, St.setBg, ↓reduceIte, Bool.false_eq_true, Bool.and_false, Bool.and_true, Bool.false_and, Bool.true_and]) <;> (repeat' split) <;> simp_all [tot_set_eq _ _ _ _ _ hi, tot_ackWs_srall, srAllW, St.bg, onOk, onErr, selNext, afterSetErr] <;> (try omega)
   | cmSleepTimer _ i k lg hi =>
     have l1 := le_tot srAllW _ _ _ hi
-    cases lg <;> (try simp only [St.setDone, St.setBg]) <;> (repeat' split) <;> simp_all [tot_set_eq _ _ _ _ _ hi, tot_ackWs_srall, srAllW, St.bg, onOk, onErr, selNext, afterSetErr] <;> (try omega)
+    cases lg <;> (try simp only [St.setDone, St.setBg, ↓reduceIte, Bool.false_eq_true, Bool.and_false, Bool.and_true, Bool.false_and, Bool.true_and]) <;> (repeat' split) <;> simp_all [tot_set_eq _ _ _ _ _ hi, tot_ackWs_srall, srAllW, St.bg, onOk, onErr, selNext, afterSetErr] <;> (try omega)
   | cmSleepClosed _ i k lg hi hc =>
     have l1 := le_tot srAllW _ _ _ hi
-    cases lg <;> (try simp only [St.setDone, St.setBg]) <;> (repeat' split) <;> simp_all [tot_set_eq _ _ _ _ _ hi, tot_ackWs_srall, srAllW, St.bg, onOk, onErr, selNext, afterSetErr] <;> (try omega)
+    cases lg <;> (try simp only [St.setDone, St.setBg, ↓reduceIte, Bool.false_eq_true, Bool.and_false, Bool.and_true, Bool.false_and, Bool.true_and]) <;> (repeat' split) <;> simp_all [tot_set_eq _ _ _ _ _ hi, tot_ackWs_srall, srAllW, St.bg, onOk, onErr, selNext, afterSetErr] <;> (try omega)
   | cmFail3 _ i lg hi =>
     have l1 := le_tot srAllW _ _ _ hi
-    cases lg <;> (try simp only [St.setDone, St.setBg]) <;> (repeat' split) <;> simp_all [tot_set_eq _ _ _ _ _ hi, tot_ackWs_srall, srAllW, St.bg, onOk, onErr, selNext, afterSetErr] <;> (try omega)
+    cases lg <;> (try simp only [St.setDone, St.setBg, ↓reduceIte, Bool.false_eq_true, Bool.and_false, Bool.and_true, Bool.false_and, Bool.true_and]) <;> (repeat' split) <;> simp_all [tot_set_eq _ _ _ _ _ hi, tot_ackWs_srall, srAllW, St.bg, onOk, onErr, selNext, afterSetErr] <;> (try omega)
   | cmAfterOk _ i lg hi =>
     have l1 := le_tot srAllW _ _ _ hi
-    cases lg <;> (try simp only [St.setDone, St.setBg]) <;> (repeat' split) <;> simp_all [tot_set_eq _ _ _ _ _ hi, tot_ackWs_srall, srAllW, St.bg, onOk, onErr, selNext, afterSetErr] <;> (try omega)
+    cases lg <;> (try simp only [St.setDone, St.setBg, ↓reduceIte, Bool.false_eq_true, Bool.and_false, Bool.and_true, Bool.false_and, Bool.true_and]) <;> (repeat' split) <;> simp_all [tot_set_eq _ _ _ _ _ hi, tot_ackWs_srall, srAllW, St.bg, onOk, onErr, selNext, afterSetErr] <;> (try omega)
   | cmNoWaitComp _ i lg hi =>
     have l1 := le_tot srAllW _ _ _ hi
-    cases lg <;> (try simp only [St.setDone, St.setBg]) <;> (repeat' split) <;> simp_all [tot_set_eq _ _ _ _ _ hi, tot_ackWs_srall, srAllW, St.bg, onOk, onErr, selNext, afterSetErr] <;> (try omega)
+    cases lg <;> (try simp only [St.setDone, St.setBg, ↓reduceIte, Bool.false_eq_true, Bool.and_false, Bool.and_true, Bool.false_and, Bool.true_and]) <;> (repeat' split) <;> simp_all [tot_set_eq _ _ _ _ _ hi, tot_ackWs_srall, srAllW, St.bg, onOk, onErr, selNext, afterSetErr] <;> (try omega)
   | cmWaitComp _ i lg hi =>
     have l1 := le_tot srAllW _ _ _ hi
-    cases lg <;> (try simp only [St.setDone, St.setBg]) <;> (repeat' split) <;> simp_all [tot_set_eq _ _ _ _ _ hi, tot_ackWs_srall, srAllW, St.bg, onOk, onErr, selNext, afterSetErr] <;> (try omega)
+    cases lg <;> (try simp only [St.setDone, St.setBg, ↓reduceIte, Bool.false_eq_true, Bool.and_false, Bool.and_true, Bool.false_and, Bool.true_and]) <;> (repeat' split) <;> simp_all [tot_set_eq _ _ _ _ _ hi, tot_ackWs_srall, srAllW, St.bg, onOk, onErr, selNext, afterSetErr] <;> (try omega)
   | cmDone _ i lg hi =>
     have l1 := le_tot srAllW _ _ _ hi
-    cases lg <;> (try simp only [St.setDone, St.setBg]) <;> (repeat' split) <;> simp_all [tot_set_eq _ _ _ _ _ hi, tot_ackWs_srall, srAllW, St.bg, onOk, onErr, selNext, afterSetErr] <;> (try omega)
+    cases lg <;> (try simp only [St.setDone, St.setBg, ↓reduceIte, Bool.false_eq_true, Bool.and_false, Bool.and_true, Bool.false_and, Bool.true_and]) <;> (repeat' split) <;> simp_all [tot_set_eq _ _ _ _ _ hi, tot_ackWs_srall, srAllW, St.bg, onOk, onErr, selNext, afterSetErr] <;> (try omega)
   | cmRet _ i ok lg hi =>
     have l1 := le_tot srAllW _ _ _ hi
-    cases ok <;> cases lg <;> (try simp only [St.setDone, St.setBg]) <;> (repeat' split) <;> simp_all [tot_set_eq _ _ _ _ _ hi, tot_ackWs_srall, srAllW, St.bg, onOk, onErr, selNext, afterSetErr] <;> (try omega)
+    cases ok <;> cases lg <;> (try simp only [St.setDone, St.setBg, ↓reduceIte, Bool.false_eq_true, Bool.and_false, Bool.and_true, Bool.false_and, Bool.true_and]) <;> (repeat' split) <;> simp_all [tot_set_eq _ _ _ _ _ hi, tot_ackWs_srall, srAllW, St.bg, onOk, onErr, selNext, afterSetErr] <;> (try omega)
   | dcLockTr _ i lg hi hl =>
     have l1 := le_tot srAllW _ _ _ hi
-    cases lg <;> (try simp only [St.setDone, St.setBg]) <;> (repeat' split) <;> simp_all [tot_set_eq _ _ _ _ _ hi, tot_ackWs_srall, srAllW, St.bg, onOk, onErr, selNext, afterSetErr] <;> (try omega)
+    cases lg <;> (try simp only [St.setDone, St.setBg, ↓reduceIte, Bool.false_eq_true, Bool.and_false, Bool.and_true, Bool.false_and, Bool.true_and]) <;> (repeat' split) <;> simp_all [tot_set_eq _ _ _ _ _ hi, tot_ackWs_srall, srAllW, St.bg, onOk, onErr, selNext, afterSetErr] <;> (try omega)
   | dcBody _ i lg hi =>
     have l1 := le_tot srAllW _ _ _ hi
-    cases lg <;> (try simp only [St.setDone, St.setBg]) <;> (repeat' split) <;> simp_all [tot_set_eq _ _ _ _ _ hi, tot_ackWs_srall, srAllW, St.bg, onOk, onErr, selNext, afterSetErr] <;> (try omega)
+    cases lg <;> (try simp only [St.setDone, St.setBg, ↓reduceIte, Bool.false_eq_true, Bool.and_false, Bool.and_true, Bool.false_and, Bool.true_and]) <;> (repeat' split) <;> simp_all [tot_set_eq _ _ _ _ _ hi, tot_ackWs_srall, srAllW, St.bg, onOk, onErr, selNext, afterSetErr] <;> (try omega)
   | crNoOverlap _ i hi =>
     have l1 := le_tot srAllW _ _ _ hi
-    (try simp only [St.setDone, St.setBg]) <;> (repeat' split) <;> simp_all [tot_set_eq _ _ _ _ _ hi, tot_ackWs_srall, srAllW, St.bg, onOk, onErr, selNext, afterSetErr] <;> (try omega)
+    (try simp only [St.setDone, St.setBg, ↓reduceIte, Bool.false_eq_true, Bool.and_false, Bool.and_true, Bool.false_and, Bool.true_and]) <;> (repeat' split) <;> simp_all [tot_set_eq _ _ _ _ _ hi, tot_ackWs_srall, srAllW, St.bg, onOk, onErr, selNext, afterSetErr] <;> (try omega)
   | crOverlap _ i hi =>
     have l1 := le_tot srAllW _ _ _ hi
-    (try simp only [St.setDone, St.setBg]) <;> (repeat' split) <;> simp_all [tot_set_eq _ _ _ _ _ hi, tot_ackWs_srall, srAllW, St.bg, onOk, onErr, selNext, afterSetErr] <;> (try omega)
+    (try simp only [St.setDone, St.setBg, ↓reduceIte, Bool.false_eq_true, Bool.and_false, Bool.and_true, Bool.false_and, Bool.true_and]) <;> (repeat' split) <;> simp_all [tot_set_eq _ _ _ _ _ hi, tot_ackWs_srall, srAllW, St.bg, onOk, onErr, selNext, afterSetErr] <;> (try omega)
   | crNewMemOk _ i hi =>
     have l1 := le_tot srAllW _ _ _ hi
-    (try simp only [St.setDone, St.setBg]) <;> (repeat' split) <;> simp_all [tot_set_eq _ _ _ _ _ hi, tot_ackWs_srall, srAllW, St.bg, onOk, onErr, selNext, afterSetErr] <;> (try omega)
+    (try simp only [St.setDone, St.setBg, ↓reduceIte, Bool.false_eq_true, Bool.and_false, Bool.and_true, Bool.false_and, Bool.true_and]) <;> (repeat' split) <;> simp_all [tot_set_eq _ _ _ _ _ hi, tot_ackWs_srall, srAllW, St.bg, onOk, onErr, selNext, afterSetErr] <;> (try omega)
   | crNewMemFail _ i hi =>
     have l1 := le_tot srAllW _ _ _ hi
-    (try simp only [St.setDone, St.setBg]) <;> (repeat' split) <;> simp_all [tot_set_eq _ _ _ _ _ hi, tot_ackWs_srall, srAllW, St.bg, onOk, onErr, selNext, afterSetErr] <;> (try omega)
+    (try simp only [St.setDone, St.setBg, ↓reduceIte, Bool.false_eq_true, Bool.and_false, Bool.and_true, Bool.false_and, Bool.true_and]) <;> (repeat' split) <;> simp_all [tot_set_eq _ _ _ _ _ hi, tot_ackWs_srall, srAllW, St.bg, onOk, onErr, selNext, afterSetErr] <;> (try omega)
   | crRelM _ i hi =>
     have l1 := le_tot srAllW _ _ _ hi
-    (try simp only [St.setDone, St.setBg]) <;> (repeat' split) <;> simp_all [tot_set_eq _ _ _ _ _ hi, tot_ackWs_srall, srAllW, St.bg, onOk, onErr, selNext, afterSetErr] <;> (try omega)
+    (try simp only [St.setDone, St.setBg, ↓reduceIte, Bool.false_eq_true, Bool.and_false, Bool.and_true, Bool.false_and, Bool.true_and]) <;> (repeat' split) <;> simp_all [tot_set_eq _ _ _ _ _ hi, tot_ackWs_srall, srAllW, St.bg, onOk, onErr, selNext, afterSetErr] <;> (try omega)
   | crRelOk _ i hi =>
     have l1 := le_tot srAllW _ _ _ hi
-    (try simp only [St.setDone, St.setBg]) <;> (repeat' split) <;> simp_all [tot_set_eq _ _ _ _ _ hi, tot_ackWs_srall, srAllW, St.bg, onOk, onErr, selNext, afterSetErr] <;> (try omega)
+    (try simp only [St.setDone, St.setBg, ↓reduceIte, Bool.false_eq_true, Bool.and_false, Bool.and_true, Bool.false_and, Bool.true_and]) <;> (repeat' split) <;> simp_all [tot_set_eq _ _ _ _ _ hi, tot_ackWs_srall, srAllW, St.bg, onOk, onErr, selNext, afterSetErr] <;> (try omega)
   | crRelFail _ i hi =>
     have l1 := le_tot srAllW _ _ _ hi
-    (try simp only [St.setDone, St.setBg]) <;> (repeat' split) <;> simp_all [tot_set_eq _ _ _ _ _ hi, tot_ackWs_srall, srAllW, St.bg, onOk, onErr, selNext, afterSetErr] <;> (try omega)
+    (try simp only [St.setDone, St.setBg, ↓reduceIte, Bool.false_eq_true, Bool.and_false, Bool.and_true, Bool.false_and, Bool.true_and]) <;> (repeat' split) <;> simp_all [tot_set_eq _ _ _ _ _ hi, tot_ackWs_srall, srAllW, St.bg, onOk, onErr, selNext, afterSetErr] <;> (try omega)
   | srSend _ i hi he =>
     have l1 := le_tot srAllW _ _ _ hi
-    (try simp only [St.setDone, St.setBg]) <;> (repeat' split) <;> simp_all [tot_set_eq _ _ _ _ _ hi, tot_ackWs_srall, srAllW, St.bg, onOk, onErr, selNext, afterSetErr] <;> (try omega)
+    (try simp only [St.setDone, St.setBg, ↓reduceIte, Bool.false_eq_true, Bool.and_false, Bool.and_true, Bool.false_and, Bool.true_and]) <;> (repeat' split) <;> simp_all [tot_set_eq _ _ _ _ _ hi, tot_ackWs_srall, srAllW, St.bg, onOk, onErr, selNext, afterSetErr] <;> (try omega)
   | srPerErr _ i hi he =>
     have l1 := le_tot srAllW _ _ _ hi
-    (try simp only [St.setDone, St.setBg]) <;> (repeat' split) <;> simp_all [tot_set_eq _ _ _ _ _ hi, tot_ackWs_srall, srAllW, St.bg, onOk, onErr, selNext, afterSetErr] <;> (try omega)
+    (try simp only [St.setDone, St.setBg, ↓reduceIte, Bool.false_eq_true, Bool.and_false, Bool.and_true, Bool.false_and, Bool.true_and]) <;> (repeat' split) <;> simp_all [tot_set_eq _ _ _ _ _ hi, tot_ackWs_srall, srAllW, St.bg, onOk, onErr, selNext, afterSetErr] <;> (try omega)
   | srClosed _ i hi hc =>
     have l1 := le_tot srAllW _ _ _ hi
-    (try simp only [St.setDone, St.setBg]) <;> (repeat' split) <;> simp_all [tot_set_eq _ _ _ _ _ hi, tot_ackWs_srall, srAllW, St.bg, onOk, onErr, selNext, afterSetErr] <;> (try omega)
+    (try simp only [St.setDone, St.setBg, ↓reduceIte, Bool.false_eq_true, Bool.and_false, Bool.and_true, Bool.false_and, Bool.true_and]) <;> (repeat' split) <;> simp_all [tot_set_eq _ _ _ _ _ hi, tot_ackWs_srall, srAllW, St.bg, onOk, onErr, selNext, afterSetErr] <;> (try omega)
   | clCheckTr _ i hi =>
     have l1 := le_tot srAllW _ _ _ hi
-    (try simp only [St.setDone, St.setBg]) <;> (repeat' split) <;> simp_all [tot_set_eq _ _ _ _ _ hi, tot_ackWs_srall, srAllW, St.bg, onOk, onErr, selNext, afterSetErr] <;> (try omega)
+    (try simp only [St.setDone, St.setBg, ↓reduceIte, Bool.false_eq_true, Bool.and_false, Bool.and_true, Bool.false_and, Bool.true_and]) <;> (repeat' split) <;> simp_all [tot_set_eq _ _ _ _ _ hi, tot_ackWs_srall, srAllW, St.bg, onOk, onErr, selNext, afterSetErr] <;> (try omega)
   | clLockTr _ i hi hl =>
     have l1 := le_tot srAllW _ _ _ hi
-    (try simp only [St.setDone, St.setBg]) <;> (repeat' split) <;> simp_all [tot_set_eq _ _ _ _ _ hi, tot_ackWs_srall, srAllW, St.bg, onOk, onErr, selNext, afterSetErr] <;> (try omega)
+    (try simp only [St.setDone, St.setBg, ↓reduceIte, Bool.false_eq_true, Bool.and_false, Bool.and_true, Bool.false_and, Bool.true_and]) <;> (repeat' split) <;> simp_all [tot_set_eq _ _ _ _ _ hi, tot_ackWs_srall, srAllW, St.bg, onOk, onErr, selNext, afterSetErr] <;> (try omega)
   | clBody _ i hi =>
     have l1 := le_tot srAllW _ _ _ hi
-    (try simp only [St.setDone, St.setBg]) <;> (repeat' split) <;> simp_all [tot_set_eq _ _ _ _ _ hi, tot_ackWs_srall, srAllW, St.bg, onOk, onErr, selNext, afterSetErr] <;> (try omega)
+    (try simp only [St.setDone, St.setBg, ↓reduceIte, Bool.false_eq_true, Bool.and_false, Bool.and_true, Bool.false_and, Bool.true_and]) <;> (repeat' split) <;> simp_all [tot_set_eq _ _ _ _ _ hi, tot_ackWs_srall, srAllW, St.bg, onOk, onErr, selNext, afterSetErr] <;> (try omega)
   | clAcq _ i hi ht =>
     have l1 := le_tot srAllW _ _ _ hi
-    (try simp only [St.setDone, St.setBg]) <;> (repeat' split) <;> simp_all [tot_set_eq _ _ _ _ _ hi, tot_ackWs_srall, srAllW, St.bg, onOk, onErr, selNext, afterSetErr] <;> (try omega)
+    (try simp only [St.setDone, St.setBg, ↓reduceIte, Bool.false_eq_true, Bool.and_false, Bool.and_true, Bool.false_and, Bool.true_and]) <;> (repeat' split) <;> simp_all [tot_set_eq _ _ _ _ _ hi, tot_ackWs_srall, srAllW, St.bg, onOk, onErr, selNext, afterSetErr] <;> (try omega)
   | clWait _ i hi hm ht =>
     have l1 := le_tot srAllW _ _ _ hi
-    (try simp only [St.setDone, St.setBg]) <;> (repeat' split) <;> simp_all [tot_set_eq _ _ _ _ _ hi, tot_ackWs_srall, srAllW, St.bg, onOk, onErr, selNext, afterSetErr] <;> (try omega)
-  | ehAcquire _ he ht hn =>
-    (try simp only [St.setDone, St.setBg]) <;> (repeat' split) <;> simp_all [tot_ackWs_srall, srAllW, St.bg, onOk, onErr, selNext, afterSetErr] <;> (try omega)
-  | ehExit _ he hc =>
-    (try simp only [St.setDone, St.setBg]) <;> (repeat' split) <;> simp_all [tot_ackWs_srall, srAllW, St.bg, onOk, onErr, selNext, afterSetErr] <;> (try omega)
+    (try simp only [St.setDone, St.setBg, ↓reduceIte, Bool.false_eq_true, Bool.and_false, Bool.and_true, Bool.false_and, Bool.true_and]) <;> (repeat' split) <;> simp_all [tot_set_eq _ _ _ _ _ hi, tot_ackWs_srall, srAllW, St.bg, onOk, onErr, selNext, afterSetErr] <;> (try omega)
+  | ehAcquire _ he ht =>
+    (try simp only [St.setDone, St.setBg, ↓reduceIte, Bool.false_eq_true, Bool.and_false, Bool.and_true, Bool.false_and, Bool.true_and]) <;> (repeat' split) <;> simp_all [tot_ackWs_srall, srAllW, St.bg, onOk, onErr, selNext, afterSetErr] <;> (try omega)
+  | ehClose _ he hc =>
+    (try simp only [St.setDone, St.setBg, ↓reduceIte, Bool.false_eq_true, Bool.and_false, Bool.and_true, Bool.false_and, Bool.true_and]) <;> (repeat' split) <;> simp_all [tot_ackWs_srall, srAllW, St.bg, onOk, onErr, selNext, afterSetErr] <;> (try omega)
+  | ehTake _ he ht =>
+    (try simp only [St.setDone, St.setBg, ↓reduceIte, Bool.false_eq_true, Bool.and_false, Bool.and_true, Bool.false_and, Bool.true_and]) <;> (repeat' split) <;> simp_all [tot_ackWs_srall, srAllW, St.bg, onOk, onErr, selNext, afterSetErr] <;> (try omega)
   | bgExitIdle _ b hb hc =>
-    cases b <;> (try simp only [St.setDone, St.setBg]) <;> (repeat' split) <;> simp_all [tot_ackWs_srall, srAllW, St.bg, onOk, onErr, selNext, afterSetErr] <;> (try omega)
+    cases b <;> (try simp only [St.setDone, St.setBg, ↓reduceIte, Bool.false_eq_true, Bool.and_false, Bool.and_true, Bool.false_and, Bool.true_and]) <;> (repeat' split) <;> simp_all [tot_ackWs_srall, srAllW, St.bg, onOk, onErr, selNext, afterSetErr] <;> (try omega)
+  | bgExitParked _ hb hc =>
+    (try simp only [St.setDone, St.setBg, ↓reduceIte, Bool.false_eq_true, Bool.and_false, Bool.and_true, Bool.false_and, Bool.true_and]) <;> (repeat' split) <;> simp_all [tot_ackWs_srall, srAllW, St.bg, onOk, onErr, selNext, afterSetErr] <;> (try omega)
+  | bgWorkCorrupt _ b w hb hk =>
+    cases b <;> (try simp only [St.setDone, St.setBg, ↓reduceIte, Bool.false_eq_true, Bool.and_false, Bool.and_true, Bool.false_and, Bool.true_and]) <;> (repeat' split) <;> simp_all [tot_ackWs_srall, srAllW, St.bg, onOk, onErr, selNext, afterSetErr] <;> (try omega)
+  | bgCommitCorrupt _ b w hb hk =>
+    cases b <;> (try simp only [St.setDone, St.setBg, ↓reduceIte, Bool.false_eq_true, Bool.and_false, Bool.and_true, Bool.false_and, Bool.true_and]) <;> (repeat' split) <;> simp_all [tot_ackWs_srall, srAllW, St.bg, onOk, onErr, selNext, afterSetErr] <;> (try omega)
+  | bgSetErrCorrupt _ b w c hb he =>
+    cases b <;> cases c <;> (try simp only [St.setDone, St.setBg, ↓reduceIte, Bool.false_eq_true, Bool.and_false, Bool.and_true, Bool.false_and, Bool.true_and]) <;> (repeat' split) <;> simp_all [tot_ackWs_srall, srAllW, St.bg, onOk, onErr, selNext, afterSetErr] <;> (try omega)
   | bgWorkOk _ b w hb =>
-    cases b <;> (try simp only [St.setDone, St.setBg]) <;> (repeat' split) <;> simp_all [tot_ackWs_srall, srAllW, St.bg, onOk, onErr, selNext, afterSetErr] <;> (try omega)
+    cases b <;> (try simp only [St.setDone, St.setBg, ↓reduceIte, Bool.false_eq_true, Bool.and_false, Bool.and_true, Bool.false_and, Bool.true_and]) <;> (repeat' split) <;> simp_all [tot_ackWs_srall, srAllW, St.bg, onOk, onErr, selNext, afterSetErr] <;> (try omega)
   | bgWorkFail _ b w hb =>
-    cases b <;> (try simp only [St.setDone, St.setBg]) <;> (repeat' split) <;> simp_all [tot_ackWs_srall, srAllW, St.bg, onOk, onErr, selNext, afterSetErr] <;> (try omega)
+    cases b <;> (try simp only [St.setDone, St.setBg, ↓reduceIte, Bool.false_eq_true, Bool.and_false, Bool.and_true, Bool.false_and, Bool.true_and]) <;> (repeat' split) <;> simp_all [tot_ackWs_srall, srAllW, St.bg, onOk, onErr, selNext, afterSetErr] <;> (try omega)
   | bgCommitOk _ b w hb =>
-    cases b <;> (try simp only [St.setDone, St.setBg]) <;> (repeat' split) <;> simp_all [tot_ackWs_srall, srAllW, St.bg, onOk, onErr, selNext, afterSetErr] <;> (try omega)
+    cases b <;> (try simp only [St.setDone, St.setBg, ↓reduceIte, Bool.false_eq_true, Bool.and_false, Bool.and_true, Bool.false_and, Bool.true_and]) <;> (repeat' split) <;> simp_all [tot_ackWs_srall, srAllW, St.bg, onOk, onErr, selNext, afterSetErr] <;> (try omega)
   | bgCommitFail _ b w hb =>
-    cases b <;> (try simp only [St.setDone, St.setBg]) <;> (repeat' split) <;> simp_all [tot_ackWs_srall, srAllW, St.bg, onOk, onErr, selNext, afterSetErr] <;> (try omega)
+    cases b <;> (try simp only [St.setDone, St.setBg, ↓reduceIte, Bool.false_eq_true, Bool.and_false, Bool.and_true, Bool.false_and, Bool.true_and]) <;> (repeat' split) <;> simp_all [tot_ackWs_srall, srAllW, St.bg, onOk, onErr, selNext, afterSetErr] <;> (try omega)
   | bgSetErr _ b w ok c hb he =>
-    cases b <;> cases ok <;> cases c <;> (try simp only [St.setDone, St.setBg]) <;> (repeat' split) <;> simp_all [tot_ackWs_srall, srAllW, St.bg, onOk, onErr, selNext, afterSetErr] <;> (try omega)
+    cases b <;> cases ok <;> cases c <;> (try simp only [St.setDone, St.setBg, ↓reduceIte, Bool.false_eq_true, Bool.and_false, Bool.and_true, Bool.false_and, Bool.true_and]) <;> (repeat' split) <;> simp_all [tot_ackWs_srall, srAllW, St.bg, onOk, onErr, selNext, afterSetErr] <;> (try omega)
   | bgSetErrPer _ b w c hb he =>
-    cases b <;> cases c <;> (try simp only [St.setDone, St.setBg]) <;> (repeat' split) <;> simp_all [tot_ackWs_srall, srAllW, St.bg, onOk, onErr, selNext, afterSetErr] <;> (try omega)
+    cases b <;> cases c <;> (try simp only [St.setDone, St.setBg, ↓reduceIte, Bool.false_eq_true, Bool.and_false, Bool.and_true, Bool.false_and, Bool.true_and]) <;> (repeat' split) <;> simp_all [tot_ackWs_srall, srAllW, St.bg, onOk, onErr, selNext, afterSetErr] <;> (try omega)
   | bgBackoff _ b w c hb =>
-    cases b <;> cases c <;> (try simp only [St.setDone, St.setBg]) <;> (repeat' split) <;> simp_all [tot_ackWs_srall, srAllW, St.bg, onOk, onErr, selNext, afterSetErr] <;> (try omega)
+    cases b <;> cases c <;> (try simp only [St.setDone, St.setBg, ↓reduceIte, Bool.false_eq_true, Bool.and_false, Bool.and_true, Bool.false_and, Bool.true_and]) <;> (repeat' split) <;> simp_all [tot_ackWs_srall, srAllW, St.bg, onOk, onErr, selNext, afterSetErr] <;> (try omega)
   | bgLockClk _ b w hb hl =>
-    cases b <;> (try simp only [St.setDone, St.setBg]) <;> (repeat' split) <;> simp_all [tot_ackWs_srall, srAllW, St.bg, onOk, onErr, selNext, afterSetErr] <;> (try omega)
+    cases b <;> (try simp only [St.setDone, St.setBg, ↓reduceIte, Bool.false_eq_true, Bool.and_false, Bool.and_true, Bool.false_and, Bool.true_and]) <;> (repeat' split) <;> simp_all [tot_ackWs_srall, srAllW, St.bg, onOk, onErr, selNext, afterSetErr] <;> (try omega)
   | bgAck _ b w hb =>
-    cases b <;> (try simp only [St.setDone, St.setBg]) <;> (repeat' split) <;> simp_all [tot_ackWs_srall, srAllW, St.bg, onOk, onErr, selNext, afterSetErr] <;> (try omega)
+    cases b <;> (try simp only [St.setDone, St.setBg, ↓reduceIte, Bool.false_eq_true, Bool.and_false, Bool.and_true, Bool.false_and, Bool.true_and]) <;> (repeat' split) <;> simp_all [tot_ackWs_srall, srAllW, St.bg, onOk, onErr, selNext, afterSetErr] <;> (try omega)
   | bgExit _ b w ph hb hx =>
-    cases b <;> (try simp only [St.setDone, St.setBg]) <;> (repeat' split) <;> simp_all [tot_ackWs_srall, srAllW, St.bg, onOk, onErr, selNext, afterSetErr]
+    cases b <;> (try simp only [St.setDone, St.setBg, ↓reduceIte, Bool.false_eq_true, Bool.and_false, Bool.and_true, Bool.false_and, Bool.true_and]) <;> (repeat' split) <;> simp_all [tot_ackWs_srall, srAllW, St.bg, onOk, onErr, selNext, afterSetErr]
 
 theorem initNoSR_noSR (n : Nat) : NoSR (initNoSR n) :=
   ⟨rfl, tot_replicate_idle _ n rfl⟩
